@@ -58,6 +58,12 @@ func init() {
 	mutant(&Mutant{Name: "c05-href-not-a-name", Property: "C05", File: "svg/svg.go",
 		Old: "return bytes.Equal(name, idBytes) || bytes.Equal(name, classBytes) || bytes.Equal(name, hrefBytes) || bytes.HasSuffix(name, colonHrefBytes)", New: "return bytes.Equal(name, idBytes) || bytes.Equal(name, classBytes)",
 		Rule: "R05.9", Construct: "numeric rewrite"})
+	mutant(&Mutant{Name: "c05-lineto-compared-with-tolerance", Property: "C05", File: "svg/pathdata.go",
+		Old: "\t\t\tif ax == p.x && ay == p.y {\n\t\t\t\tcontinue\n", New: "\t\t\tif math.Abs(ax-p.x) < 1e-5 && math.Abs(ay-p.y) < 1e-5 {\n\t\t\t\tcontinue\n",
+		Rule: "R05.13", Construct: "coordinates compared exactly"})
+	mutant(&Mutant{Name: "c05-skiptag-ends-at-pi-close", Property: "C05", File: "svg/svg.go",
+		Old: "t.TokenType == xml.EndTagToken || t.TokenType == xml.StartTagCloseVoidToken {", New: "t.TokenType == xml.EndTagToken || t.TokenType == xml.StartTagCloseVoidToken || t.TokenType == xml.StartTagClosePIToken {",
+		Rule: "R05.14", Construct: "skipTag/depth pairs"})
 	mutant(&Mutant{Name: "c05-drop-title", Property: "C05", File: "svg/svg.go",
 		Old: "\t\t\tif tag == Metadata {\n\t\t\t\tt.Data = nil\n", New: "\t\t\tif tag == Metadata {\n\t\t\t\tt.Data = nil\n\t\t\t} else if tag == Style {\n\t\t\t\tt.Data = nil\n",
 		Rule: "R05.3", Construct: "element dropped"})
@@ -77,6 +83,8 @@ func runC05(c *Ctx) {
 	c.r058(pk)
 	c.r059(pk)
 	c.r0510(pk)
+	c.r0513(pk)
+	c.r0514(pk)
 	// Inline decides whether the root element keeps its xmlns: it is a per-call fact and must not be written
 	// into the shared option struct (a later standalone document would lose its namespace)
 	c.alsoUnder(map[string]string{"R13.1": "R05.11"}, func(construct string) bool { return strings.Contains(construct, "svg.") }, func() { c.r131() })
@@ -1129,4 +1137,187 @@ func firstNodeIn(g *flow.Graph, st ast.Node) *flow.Node {
 		}
 	}
 	return best
+}
+
+// R05.13: coordinates are compared exactly where a comparison removes information.
+func (c *Ctx) r0513(pk *packages.Package) {
+	const rule = "R05.13"
+	c.R.Rule(rule, "svg.(*PathData).copyInstruction drops a zero-length line and turns L into H / V when a coordinate equals the current one. Relative coordinates add up: whatever such a decision discards is missing from every later point of the subpath. The function therefore compares coordinates only with == / != on float64 operands — it calls no predicate of two float64 values and compares no difference or math.Abs(…) with a bound (a tolerance of 1e-5 per segment drops `l4e-6 0` entirely and bends a shallow slope by 8e-4 after a hundred segments)")
+	info := pk.TypesInfo
+	fd := c.fn(rule, pk, "PathData.copyInstruction")
+	if fd == nil {
+		return
+	}
+	var bad []string
+	n := 0
+	isF64 := func(t types.Type) bool {
+		b, ok := t.Underlying().(*types.Basic)
+		return ok && b.Kind() == types.Float64
+	}
+	ast.Inspect(fd.Body, func(x ast.Node) bool {
+		switch e := x.(type) {
+		case *ast.CallExpr:
+			fo, _ := callee(info, e).(*types.Func)
+			if fo == nil {
+				return true
+			}
+			sig := fo.Type().(*types.Signature)
+			if sig.Results().Len() == 1 && sig.Params().Len() >= 2 {
+				if rb, ok := sig.Results().At(0).Type().Underlying().(*types.Basic); ok && rb.Kind() == types.Bool {
+					allF := true
+					for i := 0; i < sig.Params().Len(); i++ {
+						if !isF64(sig.Params().At(i).Type()) {
+							allF = false
+						}
+					}
+					if allF {
+						bad = append(bad, "predicate "+str(e)+" at "+c.pos(e))
+					}
+				}
+			}
+			if calleeName(info, e) == "math.Abs" {
+				bad = append(bad, str(e)+" at "+c.pos(e))
+			}
+		case *ast.BinaryExpr:
+			switch e.Op {
+			case token.EQL, token.NEQ:
+				if tx, ty := info.TypeOf(e.X), info.TypeOf(e.Y); tx != nil && ty != nil && isF64(tx) && isF64(ty) {
+					n++
+				}
+			case token.LSS, token.LEQ, token.GTR, token.GEQ:
+				if tx, ty := info.TypeOf(e.X), info.TypeOf(e.Y); tx != nil && ty != nil && isF64(tx) && isF64(ty) {
+					// an ordering of two float64 values: only a difference against a bound is a tolerance test
+					if _, isSub := ast.Unparen(e.X).(*ast.BinaryExpr); isSub {
+						bad = append(bad, "tolerance test "+str(e)+" at "+c.pos(e))
+					}
+					if _, isSub := ast.Unparen(e.Y).(*ast.BinaryExpr); isSub {
+						bad = append(bad, "tolerance test "+str(e)+" at "+c.pos(e))
+					}
+				}
+			}
+		}
+		return true
+	})
+	c.R.Check(len(bad) == 0 && n >= 10, rule, "svg.PathData.copyInstruction/coordinates compared exactly", c.pos(fd), fmt.Sprintf("%d exact float64 comparisons, no tolerance", n), "coordinates are compared approximately ("+strings.Join(bad, "; ")+"): displacements below the tolerance are discarded and the error accumulates over relative commands")
+}
+
+// R05.14: element depth is counted over balanced token pairs.
+func (c *Ctx) r0514(pk *packages.Package) {
+	const rule = "R05.14"
+	c.R.Rule(rule, "svg.skipTag and svg.printTag find the end of an element by counting depth over the token stream. In the XML token stream an element is opened by one StartTagToken and closed by exactly one of EndTagToken / StartTagCloseVoidToken; StartTagCloseToken, StartTagClosePIToken and the other kinds belong to no pair. So the depth counter is raised only under StartTagToken and lowered (or the walk ended at depth 0) only under EndTagToken / StartTagCloseVoidToken — with any other kind in either set, `<metadata><?pi?>…</metadata>` ends the skip at the `?>` and the rest of the dropped element is printed")
+	info := pk.TypesInfo
+	for _, name := range []string{"skipTag", "printTag"} {
+		fd := c.fn(rule, pk, name)
+		if fd == nil {
+			continue
+		}
+		// token kinds under which a node is reached: the case list of an enclosing `switch ….TokenType`, or the
+		// ||-atoms `….TokenType == K` of an enclosing if whose then-branch holds the node
+		var stack []ast.Node
+		kindsOf := func() (map[string]bool, bool) {
+			for i := len(stack) - 1; i > 0; i-- {
+				switch p := stack[i-1].(type) {
+				case *ast.CaseClause:
+					// find the switch
+					for j := i - 1; j > 0; j-- {
+						if sw, ok := stack[j-1].(*ast.SwitchStmt); ok {
+							if sel, ok := sw.Tag.(*ast.SelectorExpr); ok && sel.Sel.Name == "TokenType" {
+								ks := map[string]bool{}
+								for _, e := range p.List {
+									ks[str(e)] = true
+								}
+								return ks, true
+							}
+							break
+						}
+					}
+				case *ast.IfStmt:
+					if stack[i] != ast.Node(p.Body) {
+						continue
+					}
+					ks := map[string]bool{}
+					pure := true
+					var walk func(e ast.Expr)
+					walk = func(e ast.Expr) {
+						e = ast.Unparen(e)
+						if b, ok := e.(*ast.BinaryExpr); ok {
+							if b.Op == token.LOR {
+								walk(b.X)
+								walk(b.Y)
+								return
+							}
+							if b.Op == token.EQL {
+								for _, pair := range [][2]ast.Expr{{b.X, b.Y}, {b.Y, b.X}} {
+									if sel, ok := pair[0].(*ast.SelectorExpr); ok && sel.Sel.Name == "TokenType" {
+										ks[str(pair[1])] = true
+										return
+									}
+								}
+							}
+						}
+						pure = false
+					}
+					walk(p.Cond)
+					if pure && len(ks) > 0 {
+						return ks, true
+					}
+				}
+			}
+			return nil, false
+		}
+		ups, downs := map[string]bool{}, map[string]bool{}
+		okAll := true
+		nUp, nDown := 0, 0
+		var visit func(n ast.Node) bool
+		visit = func(n ast.Node) bool {
+			if n == nil {
+				stack = stack[:len(stack)-1]
+				return false
+			}
+			stack = append(stack, n)
+			if s, ok := n.(*ast.IncDecStmt); ok {
+				if id, ok := s.X.(*ast.Ident); ok {
+					if b, ok := info.TypeOf(id).Underlying().(*types.Basic); ok && b.Info()&types.IsInteger != 0 {
+						ks, found := kindsOf()
+						if !found {
+							okAll = false
+						}
+						for k := range ks {
+							if s.Tok == token.INC {
+								ups[k] = true
+							} else {
+								downs[k] = true
+							}
+						}
+						if s.Tok == token.INC {
+							nUp++
+						} else {
+							nDown++
+						}
+					}
+				}
+			}
+			return true
+		}
+		ast.Inspect(fd.Body, func(n ast.Node) bool {
+			if n == nil {
+				stack = stack[:len(stack)-1]
+				return false
+			}
+			return visit(n)
+		})
+		want := func(m map[string]bool, names ...string) bool {
+			if len(m) != len(names) {
+				return false
+			}
+			for _, n := range names {
+				if !m["xml."+n] {
+					return false
+				}
+			}
+			return true
+		}
+		good := okAll && nUp >= 1 && nDown >= 1 && want(ups, "StartTagToken") && want(downs, "EndTagToken", "StartTagCloseVoidToken")
+		c.R.Check(good, rule, "svg."+name+"/depth pairs", c.pos(fd), "raised under StartTagToken, lowered under EndTagToken / StartTagCloseVoidToken", fmt.Sprintf("the depth counter is raised under %v and lowered under %v (every change under a token-kind test: %v): a kind that belongs to no open/close pair ends the element early or late", sortedKeys(ups), sortedKeys(downs), okAll))
+	}
 }
